@@ -32,10 +32,44 @@ type c12Case struct {
 	K      int    `json:"k,omitempty"`
 	// NoTimeout: MaxResponseTime disabled, so only the death of the connection (or Close) can end a request
 	NoTimeout bool `json:"no_timeout,omitempty"`
+	// Streamed: request bodies are given with SetBodyStream (declared length for the large one, unknown for the small one)
+	Streamed bool `json:"streamed,omitempty"`
+}
+
+// c12Upload is a POST with the given body, buffered or streamed.
+func c12Upload(tag, path string, body []byte, streamed bool) harness.ReqSpec {
+	r := harness.ReqSpec{Tag: tag, Method: "POST", Path: path}
+	if !streamed {
+		r.Body = body
+		return r
+	}
+	if len(body) > 16384 {
+		r.Stream, r.Declared = [][]byte{body[:16384], body[16384:]}, len(body)
+	} else {
+		r.Stream, r.Declared = [][]byte{body}, -1
+	}
+	return r
 }
 
 // c12Script is the recorded server conversation for requests on streams 1 and 3.
-func c12Script(enc *harness.PeerEncoder) []peer.Frame {
+func c12Script(enc *harness.PeerEncoder) []peer.Frame { return c12ScriptFor(enc, 1, 3) }
+
+// c12ScriptFor is the conversation for the two requests on the stream ids the
+// client actually chose (any fresh odd increasing ids are legal).
+func c12ScriptFor(enc *harness.PeerEncoder, s1, s3 uint32) []peer.Frame {
+	fs := c12ScriptRaw(enc)
+	for i := range fs {
+		switch fs[i].Stream {
+		case 1:
+			fs[i].Stream = s1
+		case 3:
+			fs[i].Stream = s3
+		}
+	}
+	return fs
+}
+
+func c12ScriptRaw(enc *harness.PeerEncoder) []peer.Frame {
 	b1 := enc.Block([]ref.Field{{Name: ":status", Value: "200"}, {Name: "x-tag", Value: "one"}, {Name: "content-length", Value: "11"}}, nil)
 	b3 := enc.Block([]ref.Field{{Name: ":status", Value: "404"}, {Name: "x-tag", Value: "three"}, {Name: "x-common", Value: "c"}}, nil)
 	return []peer.Frame{
@@ -59,8 +93,8 @@ type c12Done struct {
 	body     []byte
 }
 
-func c12Expected(delivered []byte) map[uint32]*c12Done {
-	out := map[uint32]*c12Done{1: {}, 3: {}}
+func c12Expected(delivered []byte, s1, s3 uint32) map[uint32]*c12Done {
+	out := map[uint32]*c12Done{s1: {}, s3: {}}
 	frames, _ := peer.Parse(delivered)
 	for _, f := range frames {
 		d := out[f.Stream]
@@ -107,8 +141,17 @@ func c12Exec(cs c12Case) (*fw.Violation, *harness.Client) {
 	var calls []*harness.CCall
 	if cs.Family != "writefail" {
 		calls = append(calls, h.Go(harness.ReqSpec{Tag: "one", Method: "GET", Path: "/one"}))
-		calls = append(calls, h.Go(harness.ReqSpec{Tag: "three", Method: "POST", Path: "/three", Body: []byte("upload")}))
+		calls = append(calls, h.Go(c12Upload("three", "/three", []byte("upload"), cs.Streamed)))
 	}
+	// the ids the client chose for the two requests (1 and 3 unless it allocates differently)
+	s1, s3 := uint32(1), uint32(3)
+	ids := func() {
+		if len(h.Conns) > 0 && len(h.Conns[0].Order) >= 2 {
+			s1, s3 = h.Conns[0].Order[0], h.Conns[0].Order[1]
+		}
+	}
+	ids()
+	c12Script := func(enc *harness.PeerEncoder) []peer.Frame { return c12ScriptFor(enc, s1, s3) }
 	shape := cs.Family
 	var delivered []byte
 	feed := func(b []byte) {
@@ -157,27 +200,27 @@ func c12Exec(cs c12Case) (*fw.Violation, *harness.Client) {
 		script := c12Script(srv.Enc)
 		switch cs.Name {
 		case "rst-one":
-			feed(serialize([]peer.Frame{script[0], script[1], peer.RstStream(1, 2)}))
+			feed(serialize([]peer.Frame{script[0], script[1], peer.RstStream(s1, 2)}))
 			feed(serialize(script[4:7]))
 			feed(serialize(script[8:]))
 		case "rst-refused":
-			feed(peer.RstStream(3, 7).Bytes())
+			feed(peer.RstStream(s3, 7).Bytes())
 			feed(serialize([]peer.Frame{script[0], script[1], script[2], script[7]}))
 		case "goaway-0":
 			feed(peer.GoAway(0, 0, "").Bytes())
 		case "goaway-1-then-finish":
-			feed(peer.GoAway(1, 0, "").Bytes())
+			feed(peer.GoAway(s1, 0, "").Bytes())
 			feed(serialize([]peer.Frame{script[0], script[1], script[2], script[7]}))
 		case "goaway-error-mid-response":
 			feed(serialize(script[:3]))
-			feed(peer.GoAway(3, 2, "internal").Bytes())
+			feed(peer.GoAway(s3, 2, "internal").Bytes())
 		case "oversized-frame":
-			feed(peer.RawHeader(1<<20, peer.TData, 0, 1))
+			feed(peer.RawHeader(1<<20, peer.TData, 0, s1))
 			feed(make([]byte, 4096))
 		case "garbage":
 			feed([]byte("HTTP/1.1 400 Bad Request\r\nContent-Length: 0\r\n\r\n"))
 		case "push-promise":
-			feed(peer.Frame{Type: peer.TPushPromise, Stream: 1, Flags: peer.FEndHeaders, Payload: []byte{0, 0, 0, 2, 0x82}}.Bytes())
+			feed(peer.Frame{Type: peer.TPushPromise, Stream: s1, Flags: peer.FEndHeaders, Payload: []byte{0, 0, 0, 2, 0x82}}.Bytes())
 		case "silence":
 			// nothing: only the timers can end the requests
 		case "late-response-after-timeout":
@@ -204,6 +247,31 @@ func c12Exec(cs c12Case) (*fw.Violation, *harness.Client) {
 					return mk("later-exchange-corrupted", shape, fmt.Sprintf("after two requests timed out and their responses arrived late, a new request answered with (200, x-tag: three, %q) gave done=%v err=%v status=%d body=%q headers=%v", "five-body", c3.Done, c3.Err, c3.Status, c3.Body, c3.Headers)), h
 				}
 			}
+		case "early-response-to-blocked-upload", "early-reset-of-blocked-upload":
+			// a third request whose body is larger than the stream window: part of it waits for credit
+			// when the server answers (or resets) the stream without reading the rest (RFC 7540 8.1)
+			c3 := h.Go(c12Upload("big", "/big", []byte(valOfLen(100000)), cs.Streamed))
+			calls = append(calls, c3)
+			sc := h.Conns[len(h.Conns)-1]
+			var id uint32
+			for _, sid := range sc.Order {
+				for _, kv := range sc.Streams[sid].Fields {
+					if kv[0] == ":path" && kv[1] == "/big" {
+						id = sid
+					}
+				}
+			}
+			if id != 0 {
+				if cs.Name == "early-reset-of-blocked-upload" {
+					h.Send(sc.Idx, peer.RstStream(id, 0))
+				} else {
+					h.Send(sc.Idx, sc.RespFrames(id, []ref.Field{{Name: ":status", Value: "413"}}, nil, nil, nil, -1)...)
+					if !c3.Done || c3.Err != nil || c3.Status != 413 {
+						return mk("early-response-not-delivered", shape, fmt.Sprintf("upload of 100000 bytes blocked on the stream window, server answered 413 with END_STREAM: done=%v err=%v status=%d", c3.Done, c3.Err, c3.Status)), h
+					}
+				}
+			}
+			feed(serialize(script))
 		case "window-update-overflow":
 			feed(peer.WindowUpdate(0, 1<<31-1).Bytes())
 			feed(peer.WindowUpdate(0, 1<<31-1).Bytes())
@@ -212,10 +280,10 @@ func c12Exec(cs c12Case) (*fw.Violation, *harness.Client) {
 			feed(peer.Settings(peer.Setting{ID: peer.SEnablePush, Val: 7}).Bytes())
 			feed(serialize(script))
 		case "headers-on-unknown-stream":
-			feed(peer.Headers(9, []byte{0x88}, peer.HeadersOpt{EndStream: true, EndHeaders: true, Pad: -1}).Bytes())
+			feed(peer.Headers(s3+6, []byte{0x88}, peer.HeadersOpt{EndStream: true, EndHeaders: true, Pad: -1}).Bytes())
 			feed(serialize(script))
 		case "data-before-headers":
-			feed(peer.Data(1, []byte("x"), false, -1).Bytes())
+			feed(peer.Data(s1, []byte("x"), false, -1).Bytes())
 			feed(serialize(script))
 		case "ping-flood":
 			for i := 0; i < 40; i++ {
@@ -228,14 +296,15 @@ func c12Exec(cs c12Case) (*fw.Violation, *harness.Client) {
 		h.Close()
 		h = harness.NewClient(opts)
 		calls = nil
-		first := h.Go(harness.ReqSpec{Tag: "one", Method: "POST", Path: "/one", Body: []byte(valOfLen(40000))})
+		first := h.Go(c12Upload("one", "/one", []byte(valOfLen(40000)), cs.Streamed))
 		calls = append(calls, first)
 		if len(h.Conns) > 0 {
 			h.Conns[0].C.WriteFailAt = h.Conns[0].C.BytesWritten*0 + cs.K
 		}
-		calls = append(calls, h.Go(harness.ReqSpec{Tag: "three", Method: "POST", Path: "/three", Body: []byte("upload")}))
+		calls = append(calls, h.Go(c12Upload("three", "/three", []byte("upload"), cs.Streamed)))
+		ids()
 		if len(h.Conns) > 0 {
-			h.Send(0, peer.WindowUpdate(0, 100000), peer.WindowUpdate(1, 100000))
+			h.Send(0, peer.WindowUpdate(0, 100000), peer.WindowUpdate(s1, 100000))
 			feed(serialize(c12Script(h.Conns[0].Enc)))
 		}
 		shape = "client-write-fails"
@@ -259,7 +328,7 @@ func c12Exec(cs c12Case) (*fw.Violation, *harness.Client) {
 		feed(serialize(script[:cs.K]))
 		h.ServerStall(0)
 		for i := 0; i < 3; i++ {
-			calls = append(calls, h.Go(harness.ReqSpec{Tag: fmt.Sprint("stalled", i), Method: "POST", Path: "/stalled", Body: []byte("upload")}))
+			calls = append(calls, h.Go(c12Upload(fmt.Sprint("stalled", i), "/stalled", []byte("upload"), cs.Streamed)))
 		}
 		h.ServerClose(0)
 		shape = "server-not-reading-then-gone"
@@ -280,7 +349,7 @@ func c12Exec(cs c12Case) (*fw.Violation, *harness.Client) {
 	if len(h.S.Panics) > 0 {
 		return mk("process-would-crash", shape, strings.Join(h.S.Panics, "; ")), h
 	}
-	want := c12Expected(delivered)
+	want := c12Expected(delivered, s1, s3)
 	for i, c := range calls {
 		if !c.Done {
 			return mk("request-never-resolved", shape, fmt.Sprintf("request %q: RoundTrip has not returned although every armed timer was allowed to fire", c.Tag)), h
@@ -289,7 +358,7 @@ func c12Exec(cs c12Case) (*fw.Violation, *harness.Client) {
 			return mk("resolved-more-than-once", shape, fmt.Sprintf("request %q: RoundTrip returned %d times", c.Tag, c.Resolved)), h
 		}
 		if c.Err == nil && i < 2 && (cs.Family == "cut" || cs.Family == "mutate" || cs.Family == "close") {
-			d := want[uint32(2*i+1)]
+			d := want[[]uint32{s1, s3}[i]]
 			if cs.Family != "mutate" && !d.complete {
 				return mk("success-without-complete-response", shape, fmt.Sprintf("request %q reported success (status %d, body %q) but its response never reached END_STREAM on the wire", c.Tag, c.Status, c.Body)), h
 			}
@@ -383,21 +452,23 @@ func runC12(c *fw.Ctx) {
 		do(c12Case{Family: "mutate", Mut: m})
 	}
 	c.Family("mutate")
-	for _, n := range []string{"rst-one", "rst-refused", "goaway-0", "goaway-1-then-finish", "goaway-error-mid-response", "oversized-frame", "garbage", "push-promise", "silence", "late-response-after-timeout", "window-update-overflow", "settings-invalid", "headers-on-unknown-stream", "data-before-headers", "ping-flood"} {
+	for _, n := range []string{"rst-one", "rst-refused", "goaway-0", "goaway-1-then-finish", "goaway-error-mid-response", "oversized-frame", "garbage", "push-promise", "silence", "late-response-after-timeout", "window-update-overflow", "settings-invalid", "headers-on-unknown-stream", "data-before-headers", "ping-flood", "early-response-to-blocked-upload", "early-reset-of-blocked-upload"} {
 		do(c12Case{Family: "hostile", Name: n})
 	}
 	c.Family("hostile")
-	for k := 1; k <= 16; k++ {
-		do(c12Case{Family: "writefail", K: k})
-		do(c12Case{Family: "writefail", K: k, NoTimeout: true})
-	}
-	for k := 0; k <= len(script); k++ {
-		do(c12Case{Family: "close", K: k})
-		do(c12Case{Family: "close", K: k, NoTimeout: true})
-		do(c12Case{Family: "close-stalled", K: k})
-		do(c12Case{Family: "close-stalled", K: k, NoTimeout: true})
-		do(c12Case{Family: "stalled", K: k})
-		do(c12Case{Family: "stalled", K: k, NoTimeout: true})
+	for _, st := range []bool{false, true} {
+		for k := 1; k <= 16; k++ {
+			do(c12Case{Family: "writefail", K: k, Streamed: st})
+			do(c12Case{Family: "writefail", K: k, NoTimeout: true, Streamed: st})
+		}
+		for k := 0; k <= len(script); k++ {
+			do(c12Case{Family: "close", K: k, Streamed: st})
+			do(c12Case{Family: "close", K: k, NoTimeout: true, Streamed: st})
+			do(c12Case{Family: "close-stalled", K: k, Streamed: st})
+			do(c12Case{Family: "close-stalled", K: k, NoTimeout: true, Streamed: st})
+			do(c12Case{Family: "stalled", K: k, Streamed: st})
+			do(c12Case{Family: "stalled", K: k, NoTimeout: true, Streamed: st})
+		}
 	}
 	c.Family("write-faults-and-close")
 	// without request timeouts only the end of the connection can resolve a request: every cut again
@@ -410,6 +481,15 @@ func runC12(c *fw.Ctx) {
 	}
 	for _, n := range []string{"goaway-0", "goaway-error-mid-response", "oversized-frame", "garbage", "push-promise", "window-update-overflow", "settings-invalid"} {
 		do(c12Case{Family: "hostile", Name: n, NoTimeout: true})
+		do(c12Case{Family: "hostile", Name: n, NoTimeout: true, Streamed: true})
+	}
+	// streamed uploads under every cut (coarser grid in quick) and every hostile behaviour
+	for cut := 0; cut <= total; cut += step {
+		do(c12Case{Family: "cut", Cut: cut, Streamed: true})
+	}
+	for _, n := range []string{"rst-one", "rst-refused", "goaway-0", "goaway-1-then-finish", "goaway-error-mid-response", "oversized-frame", "garbage", "silence", "late-response-after-timeout", "settings-invalid", "early-response-to-blocked-upload", "early-reset-of-blocked-upload"} {
+		do(c12Case{Family: "hostile", Name: n, Streamed: true})
+		do(c12Case{Family: "hostile", Name: n, Streamed: true, NoTimeout: true})
 	}
 	c.Family("no-request-timeout")
 }
